@@ -10,8 +10,12 @@ from spec import iupac
 META = {
     "explanation": "the element regex literal (taken from the AST of _get_formula_parser) is proved to accept exactly the 118 symbols and to tokenise deterministically (one alternative per leading capital, greedy optional class); the parse actions multiplyContents / sumByElement / count, _parse_stoich's mapping to atomic numbers, _get_leading_integer, _get_charge (values and every rejection class) and _formula_to_parts (prefix/suffix stripping, single charge token, slash rejection) are proved on symbolic strings/counts; formula_to_composition's hydrate accumulation and charge placement is proved modularly over those contracts at 1-3 hydrate parts; Substance/Species.from_formula delegate to it. How pyparsing combines the actions (unbounded nesting) is covered by the bounded grammar enumeration.",
     "trusted_base": ["z3 sequence/regex theory and cvc5 --strings-exp", "A9 models of str.split/count/startswith/endswith/int()/re.findall('^\\\\d+')", "pyparsing engine (5.5: not assumed in any proof; bounded stand-in)", "spec/iupac.py symbol table"],
-    "not_decided": ["unbounded nesting through pyparsing (engine outside the contract): bounded stand-in depth <= 3"],
-    "assumptions": ["charge strings range over the alphabet [0-9+-] (the grammar's alphabet); int() on other Unicode digit/space forms is not modelled"],
+    "not_decided": ["unbounded nesting through pyparsing (engine outside the contract): bounded stand-in depth <= 3",
+                    "strings outside the three listed rejection classes that int()/re accept leniently (observed on the pinned tree: 'H+1_0' -> charge 10, 'H+ 2', Arabic-Indic digits, 'Na Cl', 'H2(g)O'): the property neither demands acceptance nor refusal; no obligation",
+                    "attachment of the parse actions and the pairing of the bracket tokens inside the pyparsing grammar object: only through the hand-written examples (data) and the bounded enumeration"],
+    "assumptions": ["charge strings range over the alphabet [0-9+-] (the grammar's alphabet); int() on other Unicode digit/space forms is not modelled",
+                    "\\d in the regexes is modelled as ASCII 0-9 (CPython's str patterns also match other Unicode decimal digits)",
+                    "_get_charge is quantified over strings of at most 4 characters (charges up to 999); _formula_to_parts over strings of at most 10 characters: the code has no length-dependent branch"],
 }
 PA = "chempy.util.parsing"
 
